@@ -679,6 +679,25 @@ fn check_nested_body_cycles(acc: &mut Acc) {
             vec![("p0".to_string(), nest(k, "p1")), ("p1".to_string(), format!("[1].filter(e, {})", nest(k.saturating_sub(1), "p0")))],
         ));
     }
+    // the same through every macro over a map receiver (a separate code path per receiver kind;
+    // round 5, C01-m9: filter over a map restarted the depth budget in its body interpreter)
+    for (nm, tpl) in [
+        ("filter-over-map", "{'k': 0}.filter(e, size(@) >= 0)"),
+        ("filter-over-bound-map", "m.filter(e, size(@) >= 0)"),
+        ("map-over-map", "{'k': 0}.map(e, @)"),
+        ("map3-body-over-map", "{'k': 0}.map(e, true, @)"),
+        ("map3-pred-over-map", "{'k': 0}.map(e, size(@) >= 0, e)"),
+        ("all-over-map", "{'k': 0}.all(e, size(@) >= 0)"),
+        ("exists-over-map", "{'k': 0}.exists(e, size(@) < 0)"),
+        ("exists_one-over-map", "{'k': 0}.exists_one(e, size(@) >= 0)"),
+        ("reduce-over-map", "{'k': 0}.reduce(a, e, @, 0)"),
+    ] {
+        cases.push((format!("self-through-{}", nm), vec![("p0".to_string(), tpl.replace('@', "p0"))]));
+        cases.push((
+            format!("mutual-through-{}", nm),
+            vec![("p0".to_string(), tpl.replace('@', "p1")), ("p1".to_string(), "[p0]".to_string())],
+        ));
+    }
     for (name, progs) in cases {
         for profile in ["opt0", "release"] {
             for stack in ["thread2m", "main"] {
